@@ -79,6 +79,15 @@ CLAIMED = {
          "insertion, total emission loops and a loss-free buffered writer, one sh:path per property shape, label/token rendering tables. Parsing "
          "under the ShExC grammar for every IRI and label uniqueness are not decided", "4 C05",
          "call-site forwarding lint over value-flow, ordering/pairing lints, guard-dominance lint, loop-totality, emission tables by abstract evaluation (R-PLUMB, R-ORDER, R-GUARD, R-LOOP, R-EMIT, R-TABLE, R-TWIN)"),
+ "C06": ("shape-of-the-code clauses of the N-Triples scanner decided for all inputs: language-tag sigil consistency (constant folding + "
+         "guard/branch agreement), every find/rfind result used as an index is protected (enumerated idioms, 7 frozen exceptions), datatype "
+         "decision audited for whole-token substring tests and tabulated over representative tokens, statement separation. Correctness of the "
+         "quote/escape scanning for every lexical form is not decided", "4 C06",
+         "constant folding + contradiction lint, sentinel-use dataflow lint (R-SENT), scope lint (R-SCOPE), decision table by abstract evaluation (R-TABLE), twin comparison"),
+ "C07": ("the statement automaton of the Turtle reader extracted cell by cell from the token dispatch and compared with the reference productions, "
+         "inclusive/exclusive index kinds of the token-boundary searches, bounds-check adequacy, protected find results, no stale snapshot of parser "
+         "state, prefix table reaching every expansion site. Agreement with a standard parser on every layout is not decided", "4 C07",
+         "typestate table extraction by abstract evaluation of the dispatch chain (R-TS), index-kind inference (R-IDX), bounds-check implication lint (R-BOUND), sentinel and stale-read dataflow lints (R-SENT, R-STALE), value-flow reachability (R-FLOW)"),
 }
 NA_REASON = {
  "C08": "relates the outputs of different parsers (rdflib readers, two hand-written scanners, TSV splitter, decompressors) on "
